@@ -37,6 +37,21 @@ def run(ctx):
         rz.append('RESIZE %d %d %d %d %d %d %d' % ((rid,) + s1 + tuple(s2)))
         rid += 1
     res = ctx.component('K-LAYOUT', cases + waff + rz)
+    # the front end's reader of an initial-affinity file fills the SAME flat vector: value of group k in layer a at a*K*K + k*K + k (general),
+    # a*K + k (assortative: the C = 1 layout); position-encoded values, shuffled layers
+    import files, oracles
+    raff, rinfo = [], {}
+    rcid = 400000
+    for K in range(2, 6):
+        for L in range(1, 5):
+            for assort in (0, 1):
+                sub = ctx.rng.fork('ra%d' % rcid)
+                diag = [[float(100 * (a + 1) + k + 1) for k in range(K)] for a in range(L)]
+                data, style = files.render_affinity(sub, K, L, diag)
+                raff.append('RAFF %d %d %d %d %d %s' % (rcid, assort, K, L, K, files.hexbytes(data)))
+                rinfo[rcid] = (K, L, assort, diag)
+                rcid += 1
+    res_r = ctx.component('K-PARSE(affinity positions)', raff)
     # ---- oracle on the implementation alone: the documented formula, computed here independently
     n_eval = 0
     nontrivial = 0
@@ -89,6 +104,23 @@ def run(ctx):
             if rows != want:
                 ctx.violation('writer', 'write_affinity_file does not emit entry (k,q) of layer a at row k, column q of block a',
                               {'case': line, 'impl_rows': rows, 'expected_rows': want})
+    if res_r:
+        for c, (K, L, assort, diag) in rinfo.items():
+            tr = res_r['impl'].get('A %d' % c)
+            if not tr or tr[0][0] != 'OK':
+                continue
+            n_eval += 1
+            w = oracles.floats(tr[0][1:])
+            for a in range(L):
+                for k in range(K):
+                    pos = (a * K + k) if assort else (a * K * K + k * K + k)
+                    if pos >= len(w) or w[pos] != diag[a][k]:
+                        ctx.violation('reader-layout', 'read_affinity_data (K=%d, L=%d, %s): the value of group %d in layer %d is not at flat position %d' % (K, L, 'assortative' if assort else 'general', k, a, pos),
+                                      {'case': raff[c - 400000], 'file': bytes.fromhex(raff[c - 400000].split()[6]).decode('latin-1'), 'vector': w})
+                        break
+                else:
+                    continue
+                break
     if res:
         for line in rz:
             t = line.split()
